@@ -57,6 +57,7 @@ pub fn c01(ctx: &Ctx) -> Collector {
     run_space(&col, 17, &spaces::s_order(ctx.tier.thorough()), &p, true, &no_extra);
     run_space(&col, 18, &s_len_utf8(ctx.tier.thorough()), &p, true, &no_extra);
     run_space(&col, 19, &spaces::s_forced_dense(ctx.tier.thorough()), &p, true, &no_extra);
+    run_space(&col, 20, &s_counts(), &p, true, &no_extra);
     run_histories(&col, 22, &p, ctx.tier.thorough());
     run_space(&col, 23, &spaces::s_antimask(ctx.tier.thorough()), &p, true, &no_extra);
     run_space(&col, 24, &s_corpus(), &p, true, &no_extra);
@@ -464,6 +465,70 @@ pub fn s_long_auto(thorough: bool) -> Space {
 /// S_mixed_auto: strings made of a run of one class followed by a run of another (digits then alphanumeric
 /// letters, letters then digits, and the same with a lowercase tail), of every length up to `max_len` and every
 /// split point, clean and with one foreign byte at every position; automatic mode; version automatic and forced to
+/// S_counts: automatic mode on inputs in which the byte values that rule out a more compact mode occur an exact number
+/// of times: c in {255, 256, 257, 511, 512, 513, 768, 1024, 1280} occurrences of one such value (at the start, at the
+/// end, spread evenly) among 0, 1 or 300 characters of the compact class, and uniform inputs of those lengths. A
+/// detection that tallies per byte value in a narrow counter, or samples every n-th byte, is wrong for some count.
+pub fn s_counts() -> Space {
+    let mut cases = vec![];
+    let counts = [255usize, 256, 257, 511, 512, 513, 768, 1024, 1280];
+    // (compact class, the value that rules it out)
+    let combos: [(usize, u8); 6] = [(0, b'A'), (0, b'a'), (0, b' '), (1, b','), (1, b'a'), (1, 0xE9)];
+    let rep = |class: usize, i: usize| -> u8 {
+        match class {
+            0 => b'0' + ((i * 7 + 1) % 10) as u8,
+            _ => [b'A', b'Z', b' ', b'-', b'M', b'/', b'K'][i % 7],
+        }
+    };
+    for &c in &counts {
+        for &(class, bad) in &combos {
+            for base_len in [0usize, 1, 300] {
+                for layout in 0..3 {
+                    if base_len == 0 && layout > 0 {
+                        continue;
+                    }
+                    let total = c + base_len;
+                    let mut v: Vec<u8> = Vec::with_capacity(total);
+                    match layout {
+                        0 => {
+                            v.extend(std::iter::repeat(bad).take(c));
+                            v.extend((0..base_len).map(|i| rep(class, i)));
+                        }
+                        1 => {
+                            v.extend((0..base_len).map(|i| rep(class, i)));
+                            v.extend(std::iter::repeat(bad).take(c));
+                        }
+                        _ => {
+                            // spread: the bad value at positions i*total/c
+                            let mut next = 0usize;
+                            let mut placed = 0usize;
+                            let mut basei = 0usize;
+                            for i in 0..total {
+                                if placed < c && i == next {
+                                    v.push(bad);
+                                    placed += 1;
+                                    next = placed * total / c;
+                                } else if basei < base_len {
+                                    v.push(rep(class, basei));
+                                    basei += 1;
+                                } else {
+                                    v.push(bad);
+                                    placed += 1;
+                                }
+                            }
+                        }
+                    }
+                    cases.push(Case::new(v.clone(), Opts { ecl: Some(0), ..Opts::default() }));
+                    if layout == 0 {
+                        cases.push(Case::new(v, Opts::default()));
+                    }
+                }
+            }
+        }
+    }
+    Space { name: "S_counts".into(), describe: "automatic mode: a byte value that rules out the more compact mode occurring exactly c times, c in {255, 256, 257, 511, 512, 513, 768, 1024, 1280}, for 6 (compact class, ruling-out value) pairs x {alone, with 1, with 300 characters of the compact class} x {at the start, at the end, spread evenly}, level L (and the default level for the first layout)".into(), cases, exhaustive: true }
+}
+
 /// the smallest sufficient version and the next one. A detection that scans in blocks, hands over between stages
 /// at the first class change, or looks at a prefix only, is wrong for some (length, split, position) triple.
 pub fn s_mixed_auto(max_len: usize, thorough: bool) -> Space {
@@ -579,7 +644,7 @@ fn c09_extra(case: &Case, _input: &[u8], out: &Outcome) -> Vec<Finding> {
 
 pub fn c09(ctx: &Ctx) -> Collector {
     let col = Collector::new("C09", "exploration");
-    col.set_rule("cases (all options automatic) = every byte string of length <= 2 jointly; all class patterns over {digit, alnum-non-digit, other} to length 8 x 2 assignments; all 256 byte values at every position of strings to length 5 (thorough 6) over all class patterns of the other positions; long strings of each alphabet and one foreign character at every position; oracle: R's literal definition (all digits incl. empty -> Numeric; all in the 45-set with a non-digit -> Alphanumeric; else Byte) equals the mode field and the decoded mode indicator, and the decoded characters equal the input; non-trivial = a symbol was returned; distinct = distinct symbol matrices");
+    col.set_rule("cases (all options automatic) = every byte string of length <= 2 jointly; all class patterns over {digit, alnum-non-digit, other} to length 8 x 2 assignments; all 256 byte values at every position of strings to length 5 (thorough 6) over all class patterns of the other positions; long strings of each alphabet and one foreign character at every position; S_counts (a ruling-out byte value occurring exactly 255..1280 times); oracle: R's literal definition (all digits incl. empty -> Numeric; all in the 45-set with a non-digit -> Alphanumeric; else Byte) equals the mode field and the decoded mode indicator, and the decoded characters equal the input; non-trivial = a symbol was returned; distinct = distinct symbol matrices");
     col.assume(A_REF);
     let p = ["C09"];
     run_space(&col, 0, &spaces::s_small(&[None], ctx.tier.thorough()), &p, false, &c09_extra);
@@ -594,6 +659,7 @@ pub fn c09(ctx: &Ctx) -> Collector {
     run_space(&col, 7, &spaces::s_opt(ctx.tier.thorough()), &p, false, &c09_extra);
     run_space(&col, 8, &s_corpus(), &p, false, &c09_extra);
     run_space(&col, 9, &s_long_foreign(ctx.tier.thorough()), &p, false, &c09_extra);
+    run_space(&col, 10, &s_counts(), &p, false, &c09_extra);
     col
 }
 
@@ -623,6 +689,7 @@ pub fn c10(ctx: &Ctx) -> Collector {
     run_space(&col, 22, &s_long_auto(ctx.tier.thorough()), &p, false, &no_extra);
     run_space(&col, 23, &spaces::s_order(ctx.tier.thorough()), &p, false, &no_extra);
     run_space(&col, 25, &s_mixed_auto(if ctx.tier.thorough() { 64 } else { 48 }, ctx.tier.thorough()), &p, false, &no_extra);
+    run_space(&col, 65, &s_counts(), &p, false, &no_extra);
     run_space(&col, 28, &s_corpus(), &p, false, &no_extra);
     run_space(&col, 29, &s_long_foreign(ctx.tier.thorough()), &p, false, &no_extra);
     run_space(&col, 24, &s_len_utf8(ctx.tier.thorough()), &p, false, &no_extra);
